@@ -142,6 +142,16 @@ CHECKS.update({
                 design='DESIGN.md section 9 (C14)', technique='TLA+ Array state machine (TLC exhaustive) + TLC trace validation of random list/operator programs'),
 })
 
+CHECKS.update({
+    'C20': dict(text=("Model-based: the envelope (documented exception categories only; len = len(bin); 0 <= pos <= len; immutable "
+                      "objects and options unchanged) is a set of clauses of the TLA+ trace validator evaluated by TLC on every "
+                      "recorded event; the Step function leaves adversarial calls unconstrained, so only the envelope judges "
+                      "them. Seeded adversarial programs call every public callable of the four classes, Array, Dtype and pack "
+                      "with arguments of the documented types and arbitrary values, in sequences, under msb0 and lsb0, "
+                      "interleaved with fully specified calls; MC_Core proves the same envelope for the specification itself."),
+                design='DESIGN.md section 9 (C20)', technique='TLA+ trace validator envelope clauses evaluated by TLC on adversarial call sequences'),
+})
+
 NOT_YET = {
 }
 
